@@ -665,6 +665,11 @@ for _n, _mk in _MC:
   # a source in the modulo position must stay non-zero: innermost only (every source kind is non-zero)
   R("modulo_counter:%s" % _n, (lambda s, p, mk=_mk: al.modulo_counter(*mk(S(s) if p["w"] else iter(s)))),
     fam="synth", inner=_n.startswith("modulo"), dom={"w": [True, False]})
+# attack(a, d, sustain stream): the first sustain value fixes the decay slope (1 read with the
+# first output), the following ones are the sustain samples after a + d envelope samples
+R("attack:sustain-stream", lambda s, p: al.attack(p["a"], p["d"], S(s) if p["w"] else iter(s)), fam="synth",
+  need=lambda k, p, f: 1 + max(0, k - (int(p["a"] + .5) + int(p["d"] + .5))),
+  dom={"a": [1, 2, 3.5], "d": [1, 2.5], "w": [True, False]}, inner=True)
 R("line*Stream", lambda s, p: al.line(BIG) * S(s), fam="synth")
 R("Stream*ones", lambda s, p: S(s) * al.ones(), fam="synth")
 R("fadein*Stream", lambda s, p: al.fadein(BIG) * S(s) + al.zeros(), fam="synth")
